@@ -37,6 +37,14 @@ fn main() {
             max_len: args.p_u64("max_len", 2048) as usize,
         }),
         "c05" => Box::new(fvh::c05::C05::new(args.p_u64("max_size", 3000) as usize)),
+        "c10" => Box::new(fvh::c10::C10 {
+            mib: args.p_u64("mib", 8),
+        }),
+        "c12" => Box::new(fvh::c12::C12 {
+            mode: args.p_str("mode", "wellformed"),
+            rounds: args.p_u64("rounds", 4) as usize,
+            deep_log2: args.p_u64("deep_log2", 16) as u32,
+        }),
         "c09" => Box::new(fvh::c09::C09 {}),
         "c06" => Box::new(fvh::c06::C06 {}),
         "c08" => Box::new(fvh::c08::C08 {
